@@ -15,6 +15,8 @@ import SpVerif.Ops.Uslp
 import SpVerif.Ops.Verificator
 import SpVerif.Ops.DirectiveFixed
 import SpVerif.Ops.DirectiveVar
+import SpVerif.Ops.FileData
+import SpVerif.Ops.MsgToUser
 /-!
 # Line-protocol driver: one JSON object per input line (`{"op": …, …}`), one JSON result per output line.
 `{"ok": …}` / `{"err": "<category>"}` are model results; `{"bad": "<msg>"}` is a protocol error.
@@ -39,6 +41,8 @@ def allOps : List (String × Handler) := []
   ++ Ops.Verificator.ops
   ++ Ops.DirectiveFixed.ops
   ++ Ops.DirectiveVar.ops
+  ++ Ops.FileData.ops
+  ++ Ops.MsgToUser.ops
 
 def table : Std.HashMap String Handler := Std.HashMap.ofList allOps
 
